@@ -302,3 +302,37 @@ Theorem C12_all_invalid_refused : forall inp,
 Proof. exact EmuAllProofs.invalid_anywhere_refused. Qed.
 Print Assumptions C12_all_invalid_refused.
 (* ==== end of block (EmuAllDefs) ==== *)
+
+(* ==== unknown events and wrong payload sizes in the whole emulator (EmuAllStage) ==== *)
+(* EmuAllStage.stage inp = everything EmuAllDefs.ovniemu_model does before `emulate` (gates, loader, merge, probe, marks, clock
+   table, player) and returns the raw events in delivery order; C12_all_model_is_stage_then_emulate: the composed model is
+   stage followed by emulate.  Direct form of C12 on the whole trace: if ANY delivered event - each is event number idx of some
+   stream as emu_ev decodes it from the bytes (C12_all_events_are_stream_records) - is an unknown event (no model lists its
+   code, not value-blind, not legacy) or has a wrong payload size for a size-checked event (RejectDefs.wrong_size), the whole
+   emulation is Refused, whatever precedes or follows it, on any thread.  (That every record of every valid stream IS delivered
+   is the loss-freeness of the player, C03; it is not composed here.) *)
+From OV Require Proofs.EmuAllStage.
+Theorem C12_all_model_is_stage_then_emulate : forall inp,
+  EmuAllDefs.ovniemu_model inp =
+  match EmuAllStage.stage inp with
+  | inl w => EmuAllDefs.Refused w
+  | inr (sys, en, ms, revs) =>
+    match EmuAllStage.stage_emulate inp sys en ms revs with
+    | EmuCoreDefs.Ok out => EmuAllDefs.Files out | EmuCoreDefs.Err e => EmuAllDefs.Refused (EmuAllDefs.REmu e) end
+  end.
+Proof. exact EmuAllStage.model_is_stage_then_emulate. Qed.
+Print Assumptions C12_all_model_is_stage_then_emulate.
+
+Theorem C12_all_unknown_or_bad_payload_refused : forall inp sys en ms revs r,
+  EmuAllStage.stage inp = inr (sys, en, ms, revs) -> In r revs ->
+  EmuAllStage.rev_unknown r \/ EmuAllStage.rev_wrong_size r -> exists e, EmuAllDefs.ovniemu_model inp = EmuAllDefs.Refused (EmuAllDefs.REmu e).
+Proof. exact EmuAllStage.unknown_or_bad_payload_refused. Qed.
+Print Assumptions C12_all_unknown_or_bad_payload_refused.
+
+Theorem C12_all_events_are_stream_records : forall inp sys en ms revs, EmuAllStage.stage inp = inr (sys, en, ms, revs) ->
+  forall r, In r revs -> exists id s recs who tm idx, nth_error (EmuAllDefs.sorted_streams inp) id = Some s /\
+    StreamDefs.run (EmuAllDefs.si_obs s) EmuAllDefs.junk0 false = StreamDefs.Run StreamDefs.VEnd recs /\
+    EmuAllDefs.gindex_of sys s = Some who /\ EmuAllDefs.raw_event_of (EmuAllDefs.in_gids inp) s recs who tm idx = Some r.
+Proof. exact EmuAllStage.stage_events_are_stream_records. Qed.
+Print Assumptions C12_all_events_are_stream_records.
+(* ==== end of block (EmuAllStage) ==== *)
